@@ -467,3 +467,114 @@ Definition ex_utf8_labels : list label :=
 Example roundtrip_class_satisfiable :
   labels_json_ok (isprint_tbl []) ex_utf8_labels = true /\ labels_safe ex_utf8_labels = false.
 Proof. split; vm_compute; reflexivity. Qed.
+
+(* ------------------------------------------------------------------ outside the class the document is not JSON *)
+Lemma parse_str_fuel0 s : parse_str 0 s = None.
+Proof. reflexivity. Qed.
+
+Lemma parse_str_bad_escape fuel e rest :
+  simple_escape (byte e) = None -> (byte e =? 117) = false ->
+  parse_str fuel (String bs (String e rest)) = None.
+Proof.
+  intros H1 H2. destruct fuel as [|f]; [reflexivity|].
+  rewrite parse_str_unfold. cbv zeta. rewrite byte_bs.
+  change (92 =? 34) with false. change (92 =? 92) with true. cbv iota. now rewrite H1, H2.
+Qed.
+
+Lemma parse_str_esc_ascii_bad c fuel rest :
+  byte c < 128 -> json_safe_byte (byte c) = false ->
+  parse_str fuel (append (esc_ascii c) rest) = None.
+Proof.
+  intros Hlt Hs. unfold esc_ascii. unfold json_safe_byte in Hs.
+  remember (byte c) as b eqn:Hb.
+  destruct (in_rng 32 126 b) eqn:E2; [cbn [orb] in Hs; discriminate Hs|]. cbn [orb] in Hs.
+  destruct ((b =? 34) || (b =? 92)) eqn:E1.
+  { exfalso. unfold in_rng in E2. apply orb_true_iff in E1.
+    destruct E1 as [E|E]; apply Z.eqb_eq in E; subst b; rewrite E in E2; discriminate E2. }
+  destruct (b =? 7); [cbn [append]; now apply parse_str_bad_escape|].
+  destruct (b =? 8) eqn:E8; [cbn [orb] in Hs; discriminate Hs|].
+  destruct (b =? 12) eqn:E12; [rewrite !orb_true_r in Hs; discriminate Hs|].
+  destruct (b =? 10) eqn:E10; [rewrite !orb_true_r in Hs; discriminate Hs|].
+  destruct (b =? 13) eqn:E13; [rewrite !orb_true_r in Hs; discriminate Hs|].
+  destruct (b =? 9) eqn:E9; [rewrite !orb_true_r in Hs; discriminate Hs|].
+  destruct (b =? 11); cbn [append]; now apply parse_str_bad_escape.
+Qed.
+
+Lemma parse_str_quote_body_bad ip : forall n v, (String.length v <= n)%nat -> json_ok_str ip 0 v = false ->
+  forall fuel rest, parse_str fuel (append (quote_body ip 0 v) (String dq rest)) = None.
+Proof.
+  induction n as [|n IH]; intros v Hn Hok fuel rest.
+  - destruct v; [discriminate Hok|cbn in Hn; lia].
+  - destruct v as [|c r]; [discriminate Hok|]. cbn [String.length] in Hn.
+    destruct fuel as [|f]; [reflexivity|].
+    cbn [json_ok_str] in Hok. cbn [quote_body].
+    destruct (byte c <? 128) eqn:E.
+    + apply Z.ltb_lt in E. rewrite append_assoc.
+      destruct (json_safe_byte (byte c)) eqn:Es.
+      * cbn [andb] in Hok. rewrite (parse_str_esc_ascii c f _ Es).
+        rewrite (IH r) by (assumption || lia). reflexivity.
+      * now apply parse_str_esc_ascii_bad.
+    + apply Z.ltb_ge in E. destruct (decode_rune (String c r)) as [[rn w]|] eqn:D.
+      * destruct (decode_rune_multibyte c r rn w E D) as [p [v' R]].
+        rewrite (ra_take _ _ _ _ _ _ R), qb_skip, (ra_drop_tail _ _ _ _ _ _ R), append_assoc.
+        destruct (isprint_or_bmp ip rn) eqn:Ek.
+        -- cbn [andb] in Hok. rewrite ok_skip, (ra_drop_tail _ _ _ _ _ _ R) in Hok.
+           rewrite (parse_str_esc_rune ip c r rn w p v' f _ E R Ek).
+           pose proof (ra_len _ _ _ _ _ _ R) as Hl. cbn [String.length] in Hl.
+           rewrite (IH v') by (assumption || lia). reflexivity.
+        -- unfold isprint_or_bmp in Ek. apply orb_false_iff in Ek. destruct Ek as [Ek1 Ek2].
+           unfold esc_rune. rewrite Ek1, Ek2. cbn [append]. now apply parse_str_bad_escape.
+      * cbn [append]. now apply parse_str_bad_escape.
+Qed.
+
+Lemma parse_members_pair_bad ip l tail fuel : pair_ok ip l = false ->
+  parse_members fuel (append (enc_pair ip l) tail) = None.
+Proof.
+  intros Hs. destruct fuel as [|f]; [reflexivity|]. destruct l as [k v]. unfold pair_ok in Hs. cbn [fst snd] in Hs.
+  rewrite enc_pair_append. cbn [fst snd].
+  cbn [parse_members]. rewrite (skip_ws_nonws dq) by reflexivity. rewrite byte_dq. change (34 =? 34) with true. cbv iota.
+  destruct (json_ok_str ip 0 k) eqn:Ek.
+  - cbn [andb] in Hs. rewrite (parse_str_after_quote_ok ip k _ Ek).
+    rewrite (skip_ws_nonws ":"%char) by reflexivity. change (byte ":" =? 58) with true. cbv iota.
+    rewrite (skip_ws_nonws dq) by reflexivity. rewrite byte_dq. change (34 =? 34) with true. cbv iota.
+    now rewrite (parse_str_quote_body_bad ip _ v (le_n _) Hs).
+  - now rewrite (parse_str_quote_body_bad ip _ k (le_n _) Ek).
+Qed.
+
+Lemma parse_members_enc_join_bad ip : forall ls, forallb (pair_ok ip) ls = false ->
+  forall fuel, parse_members fuel (append (enc_join ip ls) "}") = None.
+Proof.
+  induction ls as [|l ls IH]; intros Hs fuel; [discriminate Hs|].
+  cbn [forallb] in Hs. destruct (pair_ok ip l) eqn:El.
+  - cbn [andb] in Hs. destruct fuel as [|f]; [reflexivity|].
+    destruct ls as [|m r]; [discriminate Hs|].
+    rewrite enc_join_cons2, append_assoc, (parse_members_step ip l _ f El).
+    cbn [append]. rewrite (skip_ws_nonws ","%char) by reflexivity.
+    change (byte "," =? 44) with true. cbv iota. now rewrite (IH Hs f).
+  - destruct ls as [|m r].
+    + cbn [enc_join]. now apply parse_members_pair_bad.
+    + rewrite enc_join_cons2, append_assoc. now apply parse_members_pair_bad.
+Qed.
+
+Lemma label_document_not_json ip ls :
+  labels_json_ok ip ls = false -> json_decode (encode_labels ip ls) = None.
+Proof.
+  intros Hs. unfold encode_labels, json_decode.
+  rewrite (skip_ws_nonws "{"%char) by reflexivity. change (byte "{" =? 123) with true. cbv iota.
+  destruct ls as [|l r]; [discriminate Hs|].
+  destruct (enc_pair_head ip l (append (match r with [] => EmptyString | _ => String "," (enc_join ip r) end) "}")) as [x Hx].
+  assert (E : append (enc_join ip (l :: r)) "}" = String dq x).
+  { rewrite <- Hx. destruct r as [|m r]; [reflexivity|]. rewrite enc_join_cons2, append_assoc. reflexivity. }
+  rewrite E. rewrite (skip_ws_nonws dq) by reflexivity. rewrite byte_dq. change (34 =? 125) with false. cbv iota.
+  rewrite <- E. now apply parse_members_enc_join_bad.
+Qed.
+
+(* exact characterisation, in the model, of the label sets whose stored document is JSON for them *)
+Lemma label_document_roundtrip_iff ip ls :
+  json_decode (encode_labels ip ls) = Some ls <-> labels_json_ok ip ls = true.
+Proof.
+  split.
+  - intros H. destruct (labels_json_ok ip ls) eqn:E; [reflexivity|].
+    rewrite (label_document_not_json ip ls E) in H. discriminate H.
+  - apply label_document_roundtrip_ok.
+Qed.
